@@ -113,7 +113,8 @@ def frexp(x: fp.Float, ctx: fp.Context) -> tuple[fp.Float, fp.Float]:
         e = ctx.round(fp.Float.zero(), exact=True)
         return m, e
     else:
-        x = x.normalize()
+        # `m` and `x.e` do not depend on how `x` is encoded, so there is no
+        # need to normalize it (which fails for a value that carries no context)
         m = ctx.round(fp.RealFloat(s=x.s, e=0, c=x.c), exact=True)
         e = ctx.round(x.e)
         return m, e
